@@ -90,6 +90,9 @@ static void install_db(void)
 	cJSON_AddItemToObject(us, "ro", mkuser("Hpr", 0, 0, 0, 1));
 	cJSON_AddItemToObject(us, "u3", mkuser("Hp3", "g", "g", 0, 0));        /* group "g": its name is a prefix of "g1" */
 	cJSON_AddItemToObject(us, "u1x", mkuser("Hpx", 0, 0, 0, 0));           /* user "u1x": "u1" is a prefix of its name */
+	cJSON_AddItemToObject(us, "uc", mkuser("Hpc", "g1", 0, 0, 0));         /* "uc" may call g1 methods */
+	cJSON_AddItemToObject(cJSON_GetObjectItem(cJSON_GetObjectItem(us, "uc"), "auth"), "callGroups", strarr1("g1"));
+	cJSON_AddItemToObject(us, "us", mkuser("Hps", "g1", "g1", 0, 0));      /* "us" may fetch and SET g1 elements - but not call */
 	cJSON_AddItemToObject(db, "users", us);
 	user_data = db; users = us; password_file = 5;
 	cJSON *g = cJSON_CreateArray(); cJSON_AddItemToArray(g, cJSON_CreateString("g1")); cJSON_AddItemToArray(g, cJSON_CreateString("g2")); cJSON_AddItemToArray(g, cJSON_CreateString("g"));
@@ -222,6 +225,44 @@ void harness_visibility(void)
 #else
 	CHECK(saw_add == 0, "C08.non_member_never_sees_element");
 	CHECK(routed == 0 && set_refused, "C08.non_member_may_not_set");
+#endif
+	WITNESS_END();
+}
+
+/* ================================================================== C08.call_rights: calling a method follows the call groups (not the set or fetch groups) */
+void harness_call_rights(void)
+{
+	__CPROVER_assume(element_hashtable_create() == 0);
+	install_db();
+	mkpeer(&O, true); mkpeer(&P1, true);
+	int v = (int)nd_range(0, 999);
+#if CALLCASE == 0
+	__CPROVER_assume(login(&P1, "uc", "pc"));      /* callGroups g1: may call */
+#elif CALLCASE == 1
+	__CPROVER_assume(login(&P1, "us", "ps"));      /* fetch and SET group g1, no call group: may not call */
+#else
+	/* never authenticates */
+#endif
+	scn_build_begin();
+	cJSON *params = path_params("m", NO_VALUE);
+	cJSON *access = cJSON_CreateObject();
+	cJSON_AddItemToObject(access, "fetchGroups", strarr1("g1"));
+	cJSON_AddItemToObject(access, "callGroups", strarr1("g1"));
+	cJSON_AddItemToObject(params, "access", access);
+	cJSON *add = mkreq("add", 1, params);
+	cJSON *cp = cJSON_CreateObject(); cJSON_AddItemToObject(cp, "path", cJSON_CreateString("m")); cJSON_AddItemToObject(cp, "args", mknumber(v));
+	cJSON *call = mkreq("call", 3, cp);
+	scn_build_end();
+	__CPROVER_assume(dispatch(&O, add) == 0);
+	reset_log();
+	CHECK(dispatch(&P1, call) == 0, "C08.call_keeps_connection");
+	int routed = count_kind(&O, K_ROUTED);
+	struct sent *cr = last_of(&P1, K_RESPONSE);
+#if CALLCASE == 0
+	{ struct sent *rt = last_of(&O, K_ROUTED); CHECK(routed == 1 && cr == 0 && rt && rt->value_int == v, "C08.member_of_call_group_may_call"); REACH("allowed"); }
+#else
+	CHECK(routed == 0 && cr && cr->is_error && count_responses(&P1) == 1 && timers_alive() == 0, "C08.non_member_of_call_group_may_not_call");
+	REACH("refused");
 #endif
 	WITNESS_END();
 }
